@@ -20,7 +20,7 @@ def content_stream(data, flate=False, extra=None):
     return Stream(d, raw)
 
 
-def build_pdf(objects, root, info=None, form="table", tape=None, pack=None, trailer_extra=None, eol=b"\n", order=None, flate_containers=True, encrypt=None, gens=None, encrypt_skip=(), container_hook=None):
+def build_pdf(objects, root, info=None, form="table", tape=None, pack=None, trailer_extra=None, eol=b"\n", order=None, flate_containers=True, encrypt=None, gens=None, encrypt_skip=(), container_hook=None, narrow_w3=False):
     """Serialise {id: value} into a single-revision PDF.
 
     form: 'table' | 'stream' (xref stream; ``pack``: ids to store in one object stream).
@@ -76,9 +76,14 @@ def build_pdf(objects, root, info=None, form="table", tape=None, pack=None, trai
                 entries[i] = ("c", nxt, k)
             nxt += 1
         entries[0] = ("f", 0, 65535)
+        w3 = 2
+        if narrow_w3 and all(e[2] == 0 for i, e in entries.items() if i):
+            # third field of width 0: generation 0 / index 0 for every entry (object 0 is then left out of /Index)
+            del entries[0]
+            w3 = 0
         trailer[b"Size"] = nxt + 1
         big = max([fw.pos() + 64, nxt] + [e[1] for e in entries.values()])
-        fw.xref_stream(nxt, entries, trailer, widths=(1, max(3, (big.bit_length() + 7) // 8), 2), flt=flate_containers, dict_hook=container_hook)
+        fw.xref_stream(nxt, entries, trailer, widths=(1, max(3, (big.bit_length() + 7) // 8), w3), flt=flate_containers, dict_hook=container_hook)
     return fw
 
 
